@@ -3,6 +3,7 @@ package props
 import (
 	"bytes"
 	"fmt"
+	"io"
 
 	"verif/mc/engine/core"
 	"verif/mc/engine/enum"
@@ -18,6 +19,7 @@ type marshaller struct {
 	name    string
 	marshal func() ([]byte, error)
 	write   func(w *bytes.Buffer) error
+	writeTo func(w io.Writer) error
 }
 
 // marshalHistories adds the clause to a codec driver. pool builds fresh records on every call
@@ -80,4 +82,73 @@ func marshalHistories(r *core.Run, what string, pool func() []marshaller) {
 			}
 			return core.Outcome{Class: fmt.Sprint("calls=", len(c.Recs)), Nontrivial: len(c.Recs) >= 2, Evals: 2 * len(c.Recs)}
 		})
+
+	type writeAfterFault struct {
+		First  int `json:"first_record"`
+		Second int `json:"second_record"`
+		Limit  int `json:"first_writer_accepts_bytes"`
+	}
+	core.Clause(r, "write-after-failed-write", core.Opts{Rule: "operation histories on the writer: Write record A to a destination that fails after k bytes (every k), then Write record B to a healthy destination and MarshalText B: B's text must be exactly what a fresh process writes (nothing left over from the failed write); every ordered pair of pool records; non-trivial = all"},
+		func(emit func(writeAfterFault) bool) {
+			p := pool()
+			for i := range p {
+				var w bytes.Buffer
+				p[i].write(&w)
+				for j := range p {
+					for k := 0; k < w.Len(); k++ {
+						if !emit(writeAfterFault{i, j, k}) {
+							return
+						}
+					}
+				}
+			}
+		},
+		func(c writeAfterFault) core.Outcome {
+			p := pool()
+			var want bytes.Buffer
+			if err := p[c.Second].write(&want); err != nil {
+				return core.Failf("Write failed: %v", err)
+			}
+			var fail string
+			pn := catch(func() {
+				lw := &limitBuffer{limit: c.Limit}
+				p[c.First].writeTo(lw) // error expected and ignored here (C07 judges it)
+				var got bytes.Buffer
+				if err := p[c.Second].write(&got); err != nil {
+					fail = fmt.Sprintf("the Write after a failed Write returned %v", err)
+					return
+				}
+				if !bytes.Equal(got.Bytes(), want.Bytes()) {
+					fail = fmt.Sprintf("after a Write of %s that failed at byte %d, Write of %s produced %q instead of %q", p[c.First].name, c.Limit, p[c.Second].name, trunc(got.String(), 200), trunc(want.String(), 200))
+					return
+				}
+				mt, err := p[c.Second].marshal()
+				if err != nil || !bytes.Equal(mt, want.Bytes()) {
+					fail = fmt.Sprintf("after a failed Write, MarshalText of %s gives %q (%v) instead of %q", p[c.Second].name, trunc(string(mt), 200), err, trunc(want.String(), 200))
+				}
+			})
+			if pn != "" {
+				return core.Failf("panic: %s", pn)
+			}
+			if fail != "" {
+				return core.Failf("%s: %s", what, fail)
+			}
+			return core.Outcome{Class: "ok", Nontrivial: true, Evals: 3}
+		})
+}
+
+// limitBuffer accepts limit bytes and then fails every Write.
+type limitBuffer struct {
+	limit int
+	n     int
+}
+
+func (l *limitBuffer) Write(p []byte) (int, error) {
+	room := l.limit - l.n
+	if len(p) <= room {
+		l.n += len(p)
+		return len(p), nil
+	}
+	l.n += room
+	return room, fmt.Errorf("injected write fault")
 }
